@@ -14,19 +14,9 @@
 (* Inputs are *LZ-structured descriptors*: sequences of                                     *)
 (*     [t |-> "L", n, s]      n incompressible bytes from seed s                            *)
 (*     [t |-> "R", off, len]  len bytes copied from `off` back (overlap allowed: runs)      *)
-(* expanded to bytes by the replayer; the spec only needs length and identity of x.         *)
-EXTENDS Naturals, Sequences, SequencesExt, FiniteSets
-
-(* ---- input descriptors ------------------------------------------------------------- *)
-DL(n, s)     == [t |-> "L", n |-> n, s |-> s]
-DR(off, len) == [t |-> "R", off |-> off, len |-> len]
-SegLen(g)  == IF g.t = "L" THEN g.n ELSE g.len
-DescLen(d) == FoldLeft(LAMBDA a, g : a + SegLen(g), 0, d)
-\* a repeat must refer to bytes that exist
-DescOk(d) == FoldLeft(LAMBDA acc, g : IF ~acc[2] THEN acc
-                                      ELSE IF g.t = "L" THEN <<acc[1] + g.n, TRUE>>
-                                      ELSE <<acc[1] + g.len, g.off >= 1 /\ g.off <= acc[1]>>,
-                      <<0, TRUE>>, d)[2]
+(* (module CodecDesc) expanded to bytes by the replayer; the spec only needs length and     *)
+(* identity of x.                                                                          *)
+EXTENDS Naturals, Sequences, SequencesExt, FiniteSets, CodecDesc
 
 (* ---- the contract as predicates on one observed call ------------------------------- *)
 (* Each operator returns the set of *names of violated clauses* (empty = allowed).        *)
